@@ -66,6 +66,7 @@ type World struct {
 	ChainID   uint64
 	NetworkID uint64
 	ByAddr    map[string]*Signer
+	Vesting map[string][4]uint64 // genesis vesting tranches (see SetVesting)
 }
 
 func orderID(kind, which string) []byte {
@@ -74,6 +75,15 @@ func orderID(kind, which string) []byte {
 }
 
 // NewWorld builds the principal table (deterministic).
+// Vesting (optional) gives genesis accounts a vesting tranche: address -> {amount, start, cliff, end}.
+// Set it before Genesis / NewLab.
+func (w *World) SetVesting(addr []byte, amount, start, cliff, end uint64) {
+	if w.Vesting == nil {
+		w.Vesting = map[string][4]uint64{}
+	}
+	w.Vesting[string(addr)] = [4]uint64{amount, start, cliff, end}
+}
+
 func NewWorld() *World {
 	w := &World{P: map[string]map[string]*Signer{}, Vals: map[string]*ValInfo{}, Orders: map[string]*OrderSpec{}, ByAddr: map[string]*Signer{},
 		ChainID: env.ChainID, NetworkID: env.NetworkID}
@@ -153,7 +163,11 @@ func (w *World) Genesis(tweak func(*fsm.Params)) *fsm.GenesisState {
 			if !ok {
 				continue
 			}
-			g.Accounts = append(g.Accounts, &fsm.Account{Address: s.Addr, Amount: Funds})
+			acc := &fsm.Account{Address: s.Addr, Amount: Funds}
+			if v, ok := w.Vesting[string(s.Addr)]; ok {
+				acc.VestingAmount, acc.VestingStartHeight, acc.VestingCliffHeight, acc.VestingEndHeight = v[0], v[1], v[2], v[3]
+			}
+			g.Accounts = append(g.Accounts, acc)
 		}
 		val := func(op, out *Signer, paused uint64) {
 			v := &fsm.Validator{Address: op.Addr, PublicKey: op.Pub, StakedAmount: Stake, Output: out.Addr, MaxPausedHeight: paused}
